@@ -1,6 +1,6 @@
 SPECIFICATION IntsSpec
 CONSTANTS
   LimbDigits = 1
-  N = 45
+  N = 32
 INVARIANT IntsAgree
 CHECK_DEADLOCK FALSE
